@@ -60,6 +60,7 @@ def search_options(cfg):
         for k in ("opt_skip_init_length", "opt_skip_period", "opt_warmstart", "model", "gp_resource_kernel", "resource_acq"):
             if k in cfg:
                 so[k] = cfg[k]
+        so.update(cfg.get("so_extra", {}))   # e.g. optimiser settings closer to the library defaults
     return so
 
 
@@ -258,6 +259,10 @@ def configs(tier, seed):
     # three workers and trial ids 8..13: two or three pending trials whose ids cross 9 -> 10 (string order != numeric order)
     add(fam="fifo", searcher="bayesopt", nir=2, W=3, T=7, R=1, p2e=1, ms=0, spine_policies=["N", "S"], h=2, bo=True, id0=9,
         perms={"1": (2, 0, 3, 1, 4, 5, 6)})
+    # the same with optimiser settings close to the library defaults (many candidates, long local optimisation): what a
+    # restored searcher does differently shows in the first digits, far above the round-off of the parameter round trip
+    add(fam="fifo", searcher="bayesopt", nir=2, W=3, T=7, R=1, p2e=1, ms=0, spine_policies=["N"], h=1, bo=True, id0=9,
+        perms={"1": (2, 0, 3, 1, 4, 5, 6)}, so_extra=dict(opt_nstarts=2, opt_maxiter=50, num_init_candidates=250))
     if not q:
         add(fam="fifo", searcher="bayesopt", nir=2, W=2, T=6, R=1, p2e=0, ms=0, spines=2, h=2, bo=True,
             perms={"1": (2, 0, 3, 1, 4, 5)}, opt_skip_init_length=1, opt_skip_period=2)
